@@ -423,6 +423,14 @@ def run_rewrite(case):
     if ds is None:
         _viol(viol, "full-read-refused", "path read before with another raster", f"second read raised {err}")
         return {"n": 1, "sigs": [], "viol": _viol_list(viol)}
+    want = tuple(np.asarray(b["samples"]).shape[-2:])
+    got = tuple(int(ds.sizes[k]) for k in ("row", "col"))
+    nb_got = int(ds.sizes.get("band_im", 1))
+    if got != want or nb_got != len(b["bands"]):
+        _viol(viol, "im-shape", "path read before with another raster",
+              f"the dataset has {nb_got} band(s) of {got} pixels, the file now at that path has {len(b['bands'])} "
+              f"band(s) of {want} pixels | " + _describe(b))
+        return {"n": 1, "sigs": [], "viol": _viol_list(viol)}
     for clause, cls, detail in REF.compare_full(ds, b):
         _viol(viol, clause, cls + "/path read before with another raster", detail + " | " + _describe(b))
     return {"n": 1, "sigs": [f"w|{case['a']}|{case['b']}|{_dig(ds['im'].data)}"], "viol": _viol_list(viol)}
